@@ -39,7 +39,8 @@ OMEN_GRAMMAR = T._Prim('omen_grammar', z3.DeclareSort('OmenGrammar'))
 OMEN_OPT = T._Prim('omen_optimizer', z3.DeclareSort('OmenOptimizer'))
 GRAMMAR_OBJ = ObjShape(MOD + ':PcfgGrammar', {
     'grammar': GRAMMAR, 'base': BASE, 'debug': TBool, 'omen_grammar': OMEN_GRAMMAR, 'omen_optimizer': OMEN_OPT,
-    'omen_guess_num': TInt, 'should_exit': TBool, 'omen_exit': TBool, 'save_file': TStr})
+    'omen_guess_num': TInt, 'should_exit': TBool, 'omen_exit': TBool, 'save_file': TStr,
+    'ruleset_info': TRec({'uuid': TStr, 'encoding': TStr})})
 QITEM = ObjShape(PQ + ':QueueItem', {'pt_item': PTITEM})
 BAG = TBag(QITEM)
 QUEUE_OBJ = ObjShape(PQ + ':PcfgQueue', {
